@@ -11,6 +11,9 @@ the launcher source and a generated main, against drivers/C20_emul.hpp (g++ -fsa
   R V g0=..;g1=..                  every back end ended with these arrays
   R DIFF serial=<obs> | openmp=<obs> | cuda=<obs> ...     otherwise (obs: V.. | CRASH <summary> | TRERR | CCERR <msg>)
   R BADCASE <why>                  the case line does not parse
+(T) On the emitted Serial and OpenMP sources the premise of serial_exclusive_array_ok is checked as text: one reset of
+`_occa_exclusive_index` per inner nest in the body of the inner-most @outer loop, one increment per inner nest in the
+body of the inner-most @inner loop (exclusive_index_check); a complaint makes the case a DIFF.
 
 Environment: C20_MODES (comma list, default all seven), C20_TMP (scratch directory root), C20_JOBS."""
 import os, re, shutil, subprocess, sys, tempfile
@@ -250,6 +253,55 @@ def emulate_mode(mode, prepared, root, stubdir, env, pool):
     return res
 
 
+def exclusive_index_check(K, src):
+    """(T) premise of serial_exclusive_array_ok on an emitted Serial / OpenMP source: inside every outer block that declares
+    an @exclusive variable, each inner nest has exactly one `_occa_exclusive_index = 0;` directly in the body of the
+    inner-most @outer loop and exactly one `++_occa_exclusive_index;`, directly in the body of the inner-most @inner loop
+    (one increment per inner tuple).  -> list of complaints"""
+    bad = []
+    depth = 0
+    ob, ob_depth = -1, None
+    nouter = 0
+    nob = len(K["obs"])
+    resets = [0] * nob
+    incs = [0] * nob
+    for raw in src.splitlines():
+        l = raw.strip()
+        if re.match(r"^for \(int o0 = 0;", l):
+            ob, ob_depth = nouter, depth
+            nouter += 1
+        if 0 <= ob < nob:
+            o = K["obs"][ob]
+            nod, nid = len(o["odims"]), len(o["idims"])
+            if l == "_occa_exclusive_index = 0;":
+                resets[ob] += 1
+                if depth != ob_depth + nod:
+                    bad.append("X1 exclusive index reset at nesting depth %d, expected %d (body of the inner-most @outer loop)"
+                               % (depth - ob_depth, nod))
+            if re.match(r"^(\+\+_occa_exclusive_index|_occa_exclusive_index\+\+|_occa_exclusive_index \+= 1);$", l):
+                incs[ob] += 1
+                if depth != ob_depth + nod + nid:
+                    bad.append("X2 exclusive index incremented at nesting depth %d, expected %d (body of the inner-most @inner loop)"
+                               % (depth - ob_depth, nod + nid))
+        elif "_occa_exclusive_index" in l and not l.startswith("int "):
+            bad.append("X? exclusive index used outside an outer loop: " + l[:60])
+        depth += l.count("{") - l.count("}")
+        if ob != -1 and depth <= ob_depth:
+            ob = -1
+    want = [len(o["secs"]) if o["nexc"] else 0 for o in K["obs"]]
+    if nouter != nob:
+        bad.append("X? %d outer-most @outer loops found, %d expected" % (nouter, nob))
+    if resets != want:
+        bad.append("X1 exclusive index resets per outer block %s, expected %s (one per inner nest)" % (resets, want))
+    if incs != want:
+        bad.append("X2 exclusive index increments per outer block %s, expected %s (one per inner nest)" % (incs, want))
+    out = []
+    for b in bad:
+        if b not in out:
+            out.append(b)
+    return out
+
+
 def driver_line(mode, K, okl):
     return "%s %s %s %d %s %d %s" % ({"serial": "Serial", "openmp": "OpenMP"}[mode], okl, K["name"], len(K["args"]),
                                      " ".join(map(str, K["args"])), len(K["garr"]), " ".join(map(str, K["garr"])))
@@ -313,7 +365,16 @@ def main():
         make_stubs(stubdir)
         prepared = prepare(lines, root)
         obs = [dict() for _ in lines]
-        translate_all(trexe, prepared, [m for m in modes if m in GPU], env, jobs)
+        translate_all(trexe, prepared, [m for m in modes], env, jobs)
+        # (T) the exclusive-index scheme in the emitted Serial / OpenMP text
+        xnotes = [[] for _ in lines]
+        for i, (K, bad, kdir, okl) in enumerate(prepared):
+            if K is None:
+                continue
+            for m in ("serial", "openmp"):
+                kf = os.path.join(kdir, m + ".kernel")
+                if m in modes and os.path.exists(kf):
+                    xnotes[i] += ["%s: %s" % (m, x) for x in exclusive_index_check(K, open(kf).read())]
         if timing:
             sys.stderr.write('translate done %.1f\n' % (time.time() - T0))
 
@@ -349,7 +410,9 @@ def main():
                 print("R BADCASE " + p[1], flush=True)
                 continue
             vals = [obs[i].get(m, "MISSING") for m in modes]
-            if vals and all(v == vals[0] for v in vals) and vals[0].startswith("V "):
+            if xnotes[i]:
+                print("R DIFF " + " | ".join(xnotes[i] + ["%s=%s" % (m, obs[i].get(m, "MISSING")) for m in modes]), flush=True)
+            elif vals and all(v == vals[0] for v in vals) and vals[0].startswith("V "):
                 print("R " + vals[0], flush=True)
             else:
                 print("R DIFF " + " | ".join("%s=%s" % (m, obs[i].get(m, "MISSING")) for m in modes), flush=True)
